@@ -63,6 +63,12 @@ func propC14(c *Ctx, r *Report) {
 	e.evalRows(r, e.rowsC14(r))
 
 	ruleNoCarriedReads(c, newSharedAnalysis(c), r, "C14/no-carried-state", reachOf(c, "node.Pegnetd.SnapshotPayouts"), carriedAllowedSync, "the snapshot payout")
+	r.rule("C14/snapshot-rotation-always", 1, "every snapshot block rotates the snapshot tables")
+	rulePassThrough(c, r, "C14/snapshot-rotation-always", c.fn("node.Pegnetd.SnapshotPayouts"), "pegnet.Pegnet.SnapshotCurrent", "the snapshot tables are rotated at every snapshot height, whether or not anybody is paid", "the next snapshot would take its minimum against a snapshot two periods old and pay funds that arrived after the previous snapshot")
+	rulePayoutsPure(c, r, "C14/payouts-pure")
+	r.rule("C14/payout-loops-complete", 2, "every holder and every asset is visited")
+	ruleLoopCompletes(c, r, "C14/payout-loops-complete", c.fn("node.Pegnetd.SnapshotPayouts"), "pegnet.Pegnet.AddToBalance", "every payout is credited")
+	ruleLoopCompletes(c, r, "C14/payout-loops-complete", c.fn("node.Pegnetd.SnapshotPayouts"), "conversions.Convert", "every holder's assets are valued")
 	// legacy fallback (dead) — no-fault scenario with SelectPendingRates inlined
 	r.rule("C14/legacy-fallback", 2, "before 2.0.2 a snapshot block without rates falls back to the previous height's rates")
 	sb := c.fn("node.Pegnetd.SyncBlock")
